@@ -79,6 +79,7 @@ def z3_goals():
             ('f x>=0', f(x) >= Number(NatType, 0)), ('g x = g x', Eq(g(x), g(x))), ('g(x-1)=g x', Eq(g(x - one), g(x))),
             ('if', T.Const('IF', TFun(BoolType, ty, ty, ty))(x >= zero, x, zero - x) >= zero),
             ('y<x', y < x), ('x+y=0', Eq(x + y, zero)), ('x=y', Eq(x, y)),
+            ('x+y+1=0', Eq(x + y + one, zero)), ('x+y<y', x + y < y), ('x+y+1>y', x + y + one > y),
         ]
         if tn != 'nat':
             bodies.append(('abs', Const('abs', TFun(ty, ty))(x) >= zero))
@@ -112,6 +113,12 @@ def z3_goals():
                 out.append((L + ' ex ex', [], Exists(x, Exists(y, b))))
                 out.append((L + ' ~(all ex)', [], Not(Forall(x, Exists(y, b)))))
                 out.append((L + ' (ex all)|-false', [], Implies(Exists(x, Forall(y, b)), false)))
+                # blocks of same-kind binders in negative positions
+                out.append((L + ' ~(all all)', [], Not(Forall(x, Forall(y, b)))))
+                out.append((L + ' ~(ex ex)', [], Not(Exists(x, Exists(y, b)))))
+                out.append((L + ' (all all)|-false', [], Implies(Forall(x, Forall(y, b)), false)))
+                out.append((L + ' hyp all all', [Forall(x, Forall(y, b))], false))
+                out.append((L + ' (all all)-->(ex ex)', [], Implies(Forall(y, Forall(x, b)), Exists(y, Exists(x, b)))))
     # uninterpreted type / functions / sets
     a, b_ = Var('a', Ta), Var('b', Ta)
     F, G = Var('F', TFun(Ta, Ta)), Var('G', TFun(Ta, Ta))
@@ -234,6 +241,14 @@ def sympy_goals(rnd, n):
     ci = lambda l, h: Const('real_closed_interval', TFun(RealType, RealType, TConst('set', RealType)))(N(l), N(h))
     oi = lambda l, h: Const('real_open_interval', TFun(RealType, RealType, TConst('set', RealType)))(N(l), N(h))
     memr = lambda e, s: Const('member', TFun(RealType, TConst('set', RealType), BoolType))(e, s)
+    # divisions inside divisors, negative powers (hidden denominators)
+    rpow = lambda a, b: Const('power', TFun(RealType, RealType, RealType))(a, b)
+    hidden = [Eq(N(1) / (x / x), N(1)), N(1) / (x / x) > N(0), Eq(x / (x / x), x), Eq(N(1) / (N(1) / x), x), Eq((x + N(1)) / ((x * x) / x), (x + N(1)) / x), Eq(N(2) / (x / (x * N(2))), N(4)),
+              Eq(x * rpow(x, N(-1)), N(1)), Eq(rpow(x, N(-1)) * x, N(1)), Eq(rpow(x, N(-2)) * x * x, N(1)), Eq(T.nat_power(RealType)(x, Nat(0)), N(1)), Eq(x * (N(1) / x) * y, y)]
+    for g in hidden:
+        fixed.append(([], g))
+        for I in (ci(-1, 1), ci(0, 1)):
+            fixed.append(([memr(x, I)], g))
     for I in (ci(0, 1), oi(0, 1), ci(-1, 1), ci(-1, 0)):
         for g in (x / x >= N(1), Not(Eq(x / x, N(0))), N(1) / x >= N(1), x * x >= N(0), N(1) - x * x >= N(0), Not(Eq(x * x, x)), x * (N(1) / x) > N(0), Not(Eq(x, N(0)))):
             fixed.append(([memr(x, I)], g))
